@@ -15,3 +15,7 @@ open Just.Props.C04
 #print axioms each_assignment_once
 #print axioms clean_idempotent
 #print axioms clean_result
+#print axioms stem_dot_extension
+#print axioms stem_is_name_without_extension
+#print axioms without_extension_and_join
+#print axioms scanners_agree
